@@ -22,6 +22,17 @@ ASSUMPTIONS = [
     'in-place edits between two flatten passes are made with dict.__setitem__ / dict.__delitem__ (plain python, not pyg_base) and keep every branch non-empty',
     'table<->tree: wildcard names are distinct, key wildcards bind strings, the last pattern element is a wildcard bound to a scalar / list leaf or a constant leaf; rows have unique paths; '
     'leaf=True and base=dict/Dict/dictattr are passed in part of the cases (on such trees they do not change what the statement demands)',
+    'optional parameters written out with the value their signature declares (types=None / ignore=None / tree=None / raise_if_duplicate=True for the flatten functions, types=(dict, Dict, dictattr) and ignore=None '
+    'for tree_update, base=dictattr / ignore=None / types=None for table_to_tree, leaf=False for tree_to_table), by keyword or positionally, are the same call as the one the statement names; so is '
+    'types=(dict, Dict, dictattr) handed to tree_items / tree_keys / tree_values / items_to_tree and ignore=[] (what None is normalised to)',
+    'NOT generated: tree_update(t, u, types=None), i.e. the default of tree_items / items_to_tree handed on to tree_update: as_tuple(None) is () and only type(u) is then a branch class, so Dict / dictattr '
+    'branches inside a dict update are hung as leaves; the statement does not speak of types at all, so this is recorded as behaviour it does not fix, not as a defect',
+    'an in-place edit between two calls of a session or of a repeated table call (classes operand_edited_in_place_between_calls, cell_edited_in_place_between_calls) is a plain dict / list write by the caller that '
+    'replaces, adds or deletes one entry and never mutates a leaf object; later calls are judged by the content at the time of the call; results made BEFORE a tree was edited are no longer inspected or reused '
+    '(the statement does not say whether a result shares untouched branches with its operands); the first tree / rows of a table case are still inspected (they hold keys and leaf values, not the rows); '
+    'a tree leaf is overwritten only under patterns that end in a wildcard (under a constant leaf the edited tree would no longer be the image of a table)',
+    'classes 21, 22, 24, 25, 27 of the brief are outside the quantifier (no stamps, no tabulated domain - tree_getitem is only claimed for listed paths -, patterns are strings, no arrays, no float leaves); '
+    'class 23: the paths of a dict u are distinct and none is the source of another, crossing branch objects between t and u is the existing u_holds / u_is class',
 ]
 
 _KEYS = ['a', 'b', 'c', 'd']
@@ -29,9 +40,11 @@ _POOLS = {'abc': _KEYS, 'num': ['1', '10', '2', '01'], 'struct': ['a', 'a.b', 'a
 _pool = st.sampled_from(['abc'] * 16 + ['num', 'num', 'struct', 'struct'])
 _lists = st.one_of(st.lists(st.integers(0, 2), max_size=2), st.lists(st.integers(0, 2), max_size=2), st.lists(st.integers(0, 2), max_size=2),
                    st.sampled_from([['a', 'b'], ['a'], ['1', '10'], [[0], [1]], [[]], ['s', 0]]))
-_leafv = st.one_of(st.none(), st.integers(0, 3), st.sampled_from(['s', 't']), _lists.map(lambda v: ['lst', v]))
+_leafv = st.one_of(st.none(), st.integers(0, 3), st.sampled_from(['s', 't', 's', 't', '']), _lists.map(lambda v: ['lst', v]))
 _btype = st.sampled_from(['dict', 'dict', 'Dict', 'dictattr'])
 _IGNORES = [None, None, None, None, None, None, [None], [None], [None], [None, 0], [None, 0], [None, 0], [0], ['s'], [[]], ['s', None]]
+_IGNORES_M = _IGNORES + [None, [], ['', None]]      # the single-call merge also gets the empty ignore list (what None is normalised to) and one that names the empty string
+_DFLT = ['omit'] * 5 + ['kw', 'pos', 'sibling']     # how the optional parameters are written: left out / their own defaults by keyword / positionally / the sibling API's default handed on
 
 
 @st.composite
@@ -202,11 +215,28 @@ def _flatten_case(draw):
         t, alias = _twice(draw, t, keys)
     elif how == 'edit':
         edit = dict(at=draw(st.integers(0, 200)), op=draw(st.sampled_from(['set', 'add', 'del', 'graft'])), v=draw(_leafv))
-    return dict(t=t, alias=alias, edit=edit, again=draw(st.booleans()))
+    return dict(t=t, alias=alias, edit=edit, again=draw(st.booleans()), dflt=draw(st.sampled_from(_DFLT)))
 
 
-def _flatten_pass(t, m, again, tag=''):
-    from pyg_base import tree_items, tree_keys, tree_values, items_to_tree, tree_getitem
+def _flatten_calls(dflt):
+    """the four flatten / rebuild calls with the optional parameters left out, or written out with the values their signatures declare (by keyword, positionally), or with
+    types = (dict, Dict, dictattr), the default of the sibling tree_update, handed on: all of these are the call the statement speaks of"""
+    from pyg_base import tree_items, tree_keys, tree_values, items_to_tree, Dict, dictattr
+    if dflt == 'kw':
+        return (lambda t: tree_items(t, types=None), lambda t: tree_keys(t, types=None), lambda t: tree_values(t, types=None),
+                lambda i: items_to_tree(i, tree=None, raise_if_duplicate=True, ignore=None, types=None), ' [own defaults by keyword]')
+    if dflt == 'pos':
+        return (lambda t: tree_items(t, None), lambda t: tree_keys(t, None), lambda t: tree_values(t, None), lambda i: items_to_tree(i, None, True, None, None), ' [own defaults positionally]')
+    if dflt == 'sibling':
+        ty = (dict, Dict, dictattr)
+        return (lambda t: tree_items(t, ty), lambda t: tree_keys(t, ty), lambda t: tree_values(t, ty), lambda i: items_to_tree(i, types=ty), ' [types = (dict, Dict, dictattr)]')
+    return tree_items, tree_keys, tree_values, items_to_tree, ''
+
+
+def _flatten_pass(t, m, again, tag='', dflt=None):
+    from pyg_base import tree_getitem
+    tree_items, tree_keys, tree_values, items_to_tree, dtag = _flatten_calls(dflt)
+    tag = tag + dtag
     snap = snapshot(t)
     items = call('tree_items(%s)%s' % (short(t, 150), tag), tree_items, t)
     exp = m_items(m)
@@ -219,7 +249,8 @@ def _flatten_pass(t, m, again, tag=''):
     check(plain(back) == m, 'items_to_tree(tree_items(%s))%s = %s', t, tag, back)
     if again:       # the caller's items list handed over a second time (and with the duplicate test switched off: the paths are unique anyway)
         check(list(items) == exp, 'items_to_tree changed the list of items it was given: now %s, was %s', items, exp)
-        back2 = call('items_to_tree(items, raise_if_duplicate = False), same items object', lambda: items_to_tree(items, raise_if_duplicate=False))
+        from pyg_base import items_to_tree as i2t
+        back2 = call('items_to_tree(items, raise_if_duplicate = False), same items object', lambda: i2t(items, raise_if_duplicate=False))
         check(plain(back2) == m, 'items_to_tree(tree_items(%s), raise_if_duplicate = False)%s = %s on the second use of the items', t, tag, back2)
         check(plain(back) == m, 'the first rebuilt tree changed when the items were used again: now %s, expected %s', back, m)
         items2 = call('tree_items(t) again', tree_items, t)
@@ -253,12 +284,13 @@ def _edit(node, k, op, v):
 
 def run_flatten(spec):
     if isinstance(spec, list):      # the spec format of earlier replay files: the tree alone
-        spec = dict(t=spec, alias=[], edit=None, again=False)
+        spec = dict(t=spec, alias=[], edit=None, again=False, dflt='omit')
     ts = spec['t']
     objs = dict(t=build(ts))
     _apply_alias(objs, spec.get('alias') or [], 't')
     t, m = objs['t'], model(ts)
-    exp = _flatten_pass(t, m, spec.get('again'))
+    dflt = spec.get('dflt') or 'omit'
+    exp = _flatten_pass(t, m, spec.get('again'), dflt=dflt)
     d = depth(ts)
     cls = ['depth=%i' % d, 'leaves=%i' % min(len(exp), 6)] + _key_classes(ts)
     if len(m) >= 60:
@@ -267,6 +299,12 @@ def run_flatten(spec):
         cls.append('one_branch_object_at_two_places')
     if spec.get('again'):
         cls.append('same_items_object_twice')
+    if dflt in ('kw', 'pos'):
+        cls += ['own_defaults_passed_explicitly', 'own_defaults_passed_' + dflt]
+    elif dflt == 'sibling':
+        cls.append('types=default_of_tree_update')
+    if any(i[-1] == '' and isinstance(i[-1], str) for i in exp):
+        cls.append('empty_string_leaf')
     e = spec.get('edit')
     if e:
         path = exp[e['at'] % len(exp)][:-1]
@@ -276,7 +314,7 @@ def run_flatten(spec):
         for k in path[:-1]:
             mp = mp[k]
         _edit(mp, path[-1], e['op'], _leaf(v[1]))
-        _flatten_pass(t, m, spec.get('again'), ' (after the caller edited the tree in place: %s at %s)' % (op, list(path)))
+        _flatten_pass(t, m, spec.get('again'), ' (after the caller edited the tree in place: %s at %s)' % (op, list(path)), dflt=dflt)
         cls += ['flattened_again_after_in_place_edit', 'edit=' + op]
     return dict(nt=d >= 2, cls=cls)
 
@@ -359,7 +397,26 @@ def _merge_case(draw):
         u = _cp(_sub(t, p))
         kind = 'branch_of_t'
         alias = alias + [['u', [], 't', p]]
-    return dict(t=t, u=u, kind=kind, alias=alias, ignore=draw(st.sampled_from(_IGNORES)), via=draw(st.sampled_from(['tree_update', 'tree_update', 'add'])))
+    ignore = draw(st.sampled_from(_IGNORES_M))
+    via = draw(st.sampled_from(['tree_update', 'tree_update', 'add']))
+    falsy = None
+    if kind == 'derived' and not alias and not wide and draw(st.integers(0, 11)) == 0:
+        # by construction: t holds a FALSY leaf (0, '', [], None) at a path where u holds a leaf the ignore list keeps out - "is there a value already" must not be a truth test
+        falsy = dict(k=draw(st.sampled_from(keys)), tv=draw(st.sampled_from([0, '', ['lst', []], None, 0, ''])), deep=draw(st.booleans()))
+        ignore = draw(st.sampled_from([[None], [None, 0], [0], ['s'], ['s', None], ['', None], [[]]]))
+        tvv = _leaf(falsy['tv'])
+        uv = draw(st.sampled_from([i for i in ignore if not (i == tvv and type(i) is type(tvv))] or ignore))
+        uv = ['lst', uv] if isinstance(uv, list) else uv
+        k = falsy['k']
+        if falsy['deep'] and t[1] and u[1]:        # one level down, under a key both sides have as (or now get as) a branch
+            bk = t[1][0][0]
+            tb = _sub(t, [bk]) if _sub(t, [bk])[0] != 'leaf' else [draw(_btype), []]
+            ub = dict((kk, v) for kk, v in u[1]).get(bk)
+            ub = ub if ub is not None and ub[0] != 'leaf' else [draw(_btype), []]
+            t, u = _put(t, bk, _put(tb, k, ['leaf', falsy['tv']])), _put(u, bk, _put(ub, k, ['leaf', uv]))
+        else:
+            t, u = _put(t, k, ['leaf', falsy['tv']]), _put(u, k, ['leaf', uv])
+    return dict(t=t, u=u, kind=kind, alias=alias, ignore=ignore, via=via, dflt=draw(st.sampled_from(_DFLT[:-1])))
 
 
 def _ign(uv, ignore):
@@ -417,13 +474,13 @@ def _at(m, path):
     return m
 
 
-def _ignored_leaf(t, u, ignore):
-    """u holds, at a path where t has a leaf too, a leaf that the ignore list keeps out"""
+def _ignored_leaf(t, u, ignore, falsy=False):
+    """u holds, at a path where t has a leaf too (falsy: a leaf that is 0 / '' / [] / None), a leaf that the ignore list keeps out"""
     for k, uv in u.items():
         if isinstance(uv, dict):
-            if isinstance(t.get(k), dict) and _ignored_leaf(t[k], uv, ignore):
+            if isinstance(t.get(k), dict) and _ignored_leaf(t[k], uv, ignore, falsy):
                 return True
-        elif k in t and _ign(uv, ignore):
+        elif k in t and _ign(uv, ignore) and not (falsy and (isinstance(t[k], dict) or t[k] or (t[k] is uv or (type(t[k]) is type(uv) and t[k] == uv)))):
             return True
     return False
 
@@ -451,7 +508,15 @@ def run_merge(spec):
         via = 'tree_update'
         what = 'tree_update(%s, %s%s)' % (short(t, 150), short(u, 150), '' if ignore is None else ', ignore=%s' % ignore)
         ig = _cp(ignore)
-        res = call(what, lambda: tree_update(t, u) if ignore is None else tree_update(t, u, ignore=ig))
+        dflt = spec.get('dflt') or 'omit'
+        if dflt == 'omit':
+            res = call(what, lambda: tree_update(t, u) if ignore is None else tree_update(t, u, ignore=ig))
+        else:       # the declared defaults written out: types = (dict, Dict, dictattr), ignore = None; by keyword or positionally
+            from pyg_base import dictattr
+            ty = (dict, Dict, dictattr)
+            what = 'tree_update(%s, %s, %s(dict, Dict, dictattr), %s%s)' % (short(t, 150), short(u, 150), 'types = ' if dflt == 'kw' else '', 'ignore = ' if dflt == 'kw' else '', ignore)
+            res = call(what, (lambda: tree_update(t, u, types=ty, ignore=ig)) if dflt == 'kw' else (lambda: tree_update(t, u, ty, ig)))
+            check(ig == ignore, '%s changed the ignore list it was given: now %s', what, ig)
     if alias:
         what += ' [one branch object at several places: %s]' % alias
     exp = m_merge(mt, mu, ignore or [])
@@ -466,6 +531,12 @@ def run_merge(spec):
         cls.append('one_branch_object_at_two_places_of_t' if a[0] == 't' else ('u_holds_a_branch_object_of_t' if a[1] else 'u_is_a_branch_object_of_t'))
         if a[0] == 't' and (_at(exp, a[1]) != _at(mt, a[1]) or _at(exp, a[3]) != _at(mt, a[3])):
             cls.append('update_writes_under_a_branch_object_that_occurs_twice')
+    if via == 'tree_update' and (spec.get('dflt') or 'omit') != 'omit':
+        cls += ['own_defaults_passed_explicitly', 'own_defaults_passed_' + spec['dflt']] + (['ignore=None_passed_explicitly'] if ignore is None else [])
+    if any(i[-1] == '' and isinstance(i[-1], str) for i in m_items(mt) + m_items(mu)):
+        cls.append('empty_string_leaf')
+    if ignore and _ignored_leaf(mt, mu, ignore, falsy=True):
+        cls.append('ignored_leaf_over_falsy_leaf_of_t')
     if ignore and _ignored_leaf(mt, mu, ignore):
         cls.append('ignored_leaf_kept_out')
         if ignore not in ([None], [None, 0]):
@@ -520,7 +591,20 @@ def _session_case(draw):
         i = draw(st.sampled_from([0, 0, 0, 0, 1] + res))
         j = draw(st.sampled_from([1, 1, 2, 2, 0] + res))
         calls.append([i, j, draw(st.sampled_from(['tree_update', 'tree_update', 'add'])), draw(st.integers(0, 4)) > 0])
-    return dict(trees=[t0, t1, t2], ignore=ignore, calls=calls)
+    edit = None
+    if draw(st.integers(0, 5)) == 0:
+        # between two calls the caller edits one of the three trees in place (plain dict operations); the calls that follow are judged by the content the tree has THEN
+        # (a per-object memo of the flattened update or of the copied tree would be stale); results made before the edit are no longer used or re-inspected
+        before = draw(st.integers(1, len(calls) - 1))
+        edit = dict(before=before, obj=draw(st.sampled_from([0, 0, 1, 2])), at=draw(st.integers(0, 200)), op=draw(st.sampled_from(['set', 'add', 'del', 'graft'])), v=draw(_leafv))
+        for c in range(before, len(calls)):
+            calls[c][0], calls[c][1] = [x if x < 3 or x >= 3 + before else x % 3 for x in calls[c][:2]]
+        c = calls[before]
+        if edit['obj'] not in c[:2]:       # the first call after the edit uses the edited object, on the side it has been used on before where there is one
+            earlier = [x[:2] for x in calls[:before]]
+            side = 0 if (edit['obj'] == 0 or any(e[0] == edit['obj'] for e in earlier)) and not any(e[1] == edit['obj'] for e in earlier) else 1
+            c[side] = edit['obj']
+    return dict(trees=[t0, t1, t2], ignore=ignore, calls=calls, edit=edit)
 
 
 def run_session(spec):
@@ -532,8 +616,24 @@ def run_session(spec):
     wrapped = {}
     watched = [(('t%i' % i), o, snapshot(o)) for i, o in enumerate(objs)]
     results = []                    # (what, result object, expected merge)
-    used, cls = [], set()
-    for i, j, via, use_ig in spec['calls']:
+    used, cls, note = [], set(), ''
+    ed = spec.get('edit')
+    for n_call, (i, j, via, use_ig) in enumerate(spec['calls']):
+        if ed and n_call == ed['before']:
+            o = ed['obj']
+            paths = m_items(models[o])
+            if paths:
+                path = paths[ed['at'] % len(paths)][:-1]
+                op = _edit(_node(objs[o], path[:-1]), path[-1], ed['op'], _leaf(ed['v']))
+                _edit(_node(models[o], path[:-1]), path[-1], ed['op'], _leaf(ed['v']))
+                # what was made before the edit may or may not share branches with the edited tree (the statement does not say): it is dropped from the watch lists
+                wrapped = {}
+                results = []
+                watched = [(('t%i' % k), objs[k], snapshot(objs[k])) for k in range(3)]
+                note = '; before this call the caller edited t%i in place: %s at %s' % (o, op, list(path))
+                cls.add('operand_edited_in_place_between_calls')
+                cls.add('edited_operand_had_been_' + ('both' if any(u[0] == o for u in used) and any(u[1] == o for u in used) else
+                                                    'the_tree' if any(u[0] == o for u in used) else 'the_update' if any(u[1] == o for u in used) else 'unused'))
         use_ig = bool(use_ig and ignore)
         L, R = objs[i], objs[j]
         if via == 'add' and not use_ig:
@@ -549,7 +649,7 @@ def run_session(spec):
             what = 'call %i of the session: tree_update(%s, %s%s)' % (len(used) + 1, short(L, 120), short(R, 120), ', ignore=%s' % (ignore,) if use_ig else '')
             res = call(what, lambda: tree_update(L, R, ignore=ig) if use_ig else tree_update(L, R))
         exp = m_merge(models[i], models[j], ignore if use_ig else [])
-        hist = '' if not used else ' (earlier calls on the same objects: %s)' % used
+        hist = '' if not used else ' (earlier calls on the same objects: %s%s)' % (used, note)
         check(isinstance(res, dict), '%s returned %s', what, type(res).__name__)
         check(plain(res) == exp, '%s = %s, the recursive merge is %s%s', what, res, exp, hist)
         check(ig == ignore, '%s changed the ignore list it was given: now %s, was %s', what, ig, ignore)
@@ -599,8 +699,8 @@ def _table_case(draw):
             parts.append(draw(st.sampled_from(['k', 'v'])))      # .../%w/k/m : a fixed key, then a fixed leaf
         parts.append(draw(st.sampled_from(['m', 'f'])))          # or .../%w/m : the wildcard is followed directly by the fixed leaf
     nrows = draw(st.integers(0, 5))
-    keyv = st.sampled_from(draw(st.sampled_from([['p', 'q', 'r']] * 9 + [['1', '10', '2']])))     # one time in ten the keys are numeric-looking strings
-    leafv = st.one_of(st.integers(0, 5), st.sampled_from(['L', 'M']), st.none(), st.lists(st.integers(0, 3), max_size=3))     # list leaves too: [], [5], [1, 2]
+    keyv = st.sampled_from(draw(st.sampled_from([['p', 'q', 'r']] * 9 + [['1', '10', '2'], ['', 'p', 'q']])))     # one time in eleven the keys are numeric-looking strings, one in eleven the empty string is a key
+    leafv = st.one_of(st.integers(0, 5), st.sampled_from(['L', 'M', 'L', 'M', '']), st.none(), st.lists(st.integers(0, 3), max_size=3))     # list leaves too: [], [5], [1, 2]
     rows, seen = [], set()
     for _ in range(nrows):
         if const_leaf:
@@ -618,7 +718,9 @@ def _table_case(draw):
         at = draw(st.integers(0, n_eff - 1))
         rows[at][-1] = draw(st.lists(st.integers(0, 3), min_size=n_eff, max_size=n_eff))
     return dict(pattern='/'.join(parts), names=names, rows=rows, const_leaf=const_leaf, as_table=draw(st.booleans()),
-                leaf=draw(st.integers(0, 3)) == 0, base=draw(st.sampled_from([None, None, None, None, 'dictattr', 'dict', 'Dict'])), repeat=draw(st.integers(0, 2)) == 0)
+                leaf=draw(st.integers(0, 3)) == 0, base=draw(st.sampled_from([None, None, None, None, 'dictattr', 'dict', 'Dict'])), repeat=draw(st.integers(0, 2)) == 0,
+                pos=draw(st.integers(0, 4)) == 0,      # the optional parameters written out positionally with the values the signatures declare (base = dictattr, ignore = None, types = None; leaf = False)
+                edit=draw(st.one_of(st.none(), st.none(), st.fixed_dictionaries(dict(row=st.integers(0, 5), col=st.integers(0, 3))))))    # with repeat: a cell of the table, then a leaf of the tree, edited in place between the calls
 
 
 def run_table(spec):
@@ -639,8 +741,24 @@ def run_table(spec):
 
     def ttt(x):
         return 'tree_to_table(%s, %r%s)' % (x, pattern, ', leaf = True' if leaf else '')
-    tree = call(what, lambda: table_to_tree(None, pattern, table, **kw))
-    back = call(ttt(short(tree, 200)), lambda: tree_to_table(tree, pattern, **lkw))
+    pos = bool(spec.get('pos'))
+    if pos:
+        what = 'table_to_tree(None, %r, %s, %s, None, None)' % (pattern, short(orig, 200), base or 'dictattr')
+        bcls = kw.get('base', pyg_base.dictattr)
+
+        def t2t(tb):
+            return table_to_tree(None, pattern, tb, bcls, None, None)
+
+        def t2tab(tr):
+            return tree_to_table(tr, pattern, leaf)
+    else:
+        def t2t(tb):
+            return table_to_tree(None, pattern, tb, **kw)
+
+        def t2tab(tr):
+            return tree_to_table(tr, pattern, **lkw)
+    tree = call(what, lambda: t2t(table))
+    back = call(ttt(short(tree, 200)), lambda: t2tab(tree))
 
     def ms(rs):
         return Counter(tuple(sorted((k, repr(v)) for k, v in r.items())) for r in rs)
@@ -655,15 +773,50 @@ def run_table(spec):
         node[path[-2]] = path[-1]
     check(plain(tree) == exp, '%s = %s, expected %s', what, tree, exp)
     # and the reverse direction on the tree produced that way
-    again = call('table_to_tree(None, pattern, tree_to_table(tree, pattern))', lambda: table_to_tree(None, pattern, back, **kw))
+    again = call('table_to_tree(None, pattern, tree_to_table(tree, pattern))', lambda: t2t(back))
     check(plain(again) == plain(tree), 'table_to_tree(tree_to_table(tree)) = %s differs from the tree %s (pattern %r)', again, tree, pattern)
     if rows:
         d = call('dictable(tree, %r)' % pattern, dictable, tree, pattern)
         check(ms(list(d)) == ms(orig), 'dictable(%s, %r) = %s, expected the rows %s', tree, pattern, list(d), orig)
-    if repeat:      # the same table object and the same tree object handed over a second time: judged by what the caller wrote into them
-        tree2 = call(what + ' called a second time on the same table object', lambda: table_to_tree(None, pattern, table, **kw))
+    e = spec.get('edit') if repeat and rows else None
+    if e:           # class 28: between the two calls the caller writes ONE cell of the table in place (into the row dict, or into the column list the dictable holds), then one leaf of the tree
+        r, name = e['row'] % len(rows), names[e['col'] % len(names)]
+        leaf_col = not spec['const_leaf'] and name == names[-1]
+        v = 'E' if leaf_col else 'zz'       # a key no other row has at that place: the paths stay unique
+        if isinstance(table, list):
+            dict.__setitem__(table[r], name, v)
+        else:
+            col = dict.__getitem__(table, name)
+            if not isinstance(col, list):
+                raise TypeError('the harness expects a dictable to hold its columns as lists, found %s' % type(col))
+            col[r] = v
+        orig2 = [dict(row) for row in orig]
+        orig2[r][name] = v
+        exp2 = {}
+        for row in orig2:
+            path = [row[p[1:]] if p.startswith('%') else p for p in pattern.split('/')]
+            node = exp2
+            for k in path[:-2]:
+                node = node.setdefault(k, {})
+            node[path[-2]] = path[-1]
+        w2 = '%s called again on the same table object after the caller set %s = %r in row %i' % (what, name, v, r)
+        tree2 = call(w2, lambda: t2t(table))
+        check(plain(tree2) == exp2, '%s = %s, expected %s', w2, tree2, exp2)
+        check(plain(tree) == exp, 'the tree built first changed afterwards: now %s, expected %s', tree, exp)
+        check(ms(back) == ms(orig), 'the rows returned first changed afterwards: now %s, expected %s', back, orig)
+        if not spec['const_leaf']:      # the tree built first: its leaf on the path of row r is overwritten in place (plain dict write); the pattern then reads the new leaf
+            path = [orig[r][p[1:]] if p.startswith('%') else p for p in pattern.split('/')]
+            dict.__setitem__(_node(tree, path[:-2]), path[-2], 'T')
+            orig3 = [dict(row) for row in orig]
+            orig3[r][names[-1]] = 'T'
+            w3 = '%s called again on the same tree object after the caller set the leaf at %s to \'T\'' % (ttt(short(tree, 200)), path[:-1])
+            back3 = call(w3, lambda: t2tab(tree))
+            check(ms(back3) == ms(orig3), '%s = %s, expected the rows %s', w3, back3, orig3)
+            check(ms(back) == ms(orig), 'the rows returned first changed afterwards: now %s, expected %s', back, orig)
+    elif repeat:      # the same table object and the same tree object handed over a second time: judged by what the caller wrote into them
+        tree2 = call(what + ' called a second time on the same table object', lambda: t2t(table))
         check(plain(tree2) == exp, 'the second %s on the same table object = %s, expected %s', what, tree2, exp)
-        back2 = call(ttt(short(tree, 200)) + ' called a second time on the same tree object', lambda: tree_to_table(tree, pattern, **lkw))
+        back2 = call(ttt(short(tree, 200)) + ' called a second time on the same tree object', lambda: t2tab(tree))
         check(ms(back2) == ms(orig), 'the second %s on the same tree object = %s, rows were %s', ttt(short(tree, 200)), back2, orig)
         check(plain(tree) == exp, 'the tree built first changed afterwards: now %s, expected %s', tree, exp)
         check(ms(back) == ms(orig), 'the rows returned first changed afterwards: now %s, expected %s', back, orig)
@@ -684,6 +837,14 @@ def run_table(spec):
         cls.append('base=' + base)
     if repeat and rows:
         cls.append('same_table_object_twice' + ('' if spec['as_table'] else ',list_of_dicts'))
+    if e:
+        cls += ['cell_edited_in_place_between_calls', 'cell_edited_in_place_between_calls,' + ('dictable_column' if not isinstance(table, list) else 'row_dict')]
+        if not spec['const_leaf']:
+            cls.append('tree_leaf_edited_in_place_between_calls')
+    if pos:
+        cls.append('own_defaults_passed_positionally')
+    if any(v == '' for v in keyvals):
+        cls.append('empty_string_key')
     return dict(nt=len(rows) >= 2 and len(names) >= 2, cls=cls)
 
 
@@ -691,26 +852,36 @@ SUBS = [
     Sub('flatten', lambda tier: _flatten_case(), run_flatten, quick=2500, thorough=15000,
         rule='trees of depth 1-4 over dict/Dict/dictattr nodes (few percent: 60-100 keys in a branch, chains to depth 8, numeric-looking or structured string keys, one branch object hung at two places); '
              'oracle: tree_items/keys/values equal the model paths in order, items_to_tree inverts (in half of the cases the same items object is used twice, the second time with raise_if_duplicate=False), tree_getitem '
-             'returns every leaf by tuple/list/dotted path, tree untouched; in a third of the cases the tree is then edited in place (set / add / delete a leaf, graft a branch) and everything is checked again on the same object. non-trivial = depth >= 2',
+             'returns every leaf by tuple/list/dotted path, tree untouched; in a third of the cases the tree is then edited in place (set / add / delete a leaf, graft a branch) and everything is checked again on the same object; in three cases of eight the optional parameters are written out (their own defaults by keyword / positionally, or types = the default of tree_update); leaves include the empty string. non-trivial = depth >= 2',
         floor=0.3, class_floors={'flattened_again_after_in_place_edit': 0.09, 'same_items_object_twice': 0.09, 'one_branch_object_at_two_places': 0.025, 'numeric_string_keys': 0.03,
-                                 'structured_keys': 0.03, 'wide_branch_60+': 0.01}),
+                                 'structured_keys': 0.03, 'wide_branch_60+': 0.01,
+                                 'own_defaults_passed_pos': 0.015, 'own_defaults_passed_kw': 0.02, 'types=default_of_tree_update': 0.016, 'empty_string_leaf': 0.028}),
     Sub('merge', lambda tier: _merge_case(), run_merge, quick=3000, thorough=20000,
         rule='pairs (t, u) with u derived from t by keep/drop/replace leaf<->branch/recurse/add (or independent, t itself, empty), ignore lists, via tree_update or Dict + dict; '
              'in a fifth of the cases a branch OBJECT occurs twice in t, or hangs in u and in t, or u is a branch object of t; '
-             'oracle: recursive merge written from the statement on plain dicts; t and u compared by structure and node identity before/after. '
+             'oracle: recursive merge written from the statement on plain dicts; t and u compared by structure and node identity before/after; '
+             'a quarter of the tree_update calls write out types = (dict, Dict, dictattr) and ignore (also ignore = None, []) by keyword or positionally; one derived case in twelve puts a falsy leaf '
+             '(0, the empty string, [], None) into t where u holds an ignored leaf. '
              'non-trivial = a nested branch present on both sides with differing content, or a leaf-vs-branch conflict',
         floor=0.2, class_floors={'nested_branch_merged': 0.1, 'leaf_vs_branch': 0.05, 'via=add': 0.05, 'empty_branch_of_u_over_content_of_t': 0.01,
                                  'one_branch_object_at_two_places_of_t': 0.014, 'update_writes_under_a_branch_object_that_occurs_twice': 0.006, 'u_holds_a_branch_object_of_t': 0.015,
-                                 'u_is_a_branch_object_of_t': 0.014, 'numeric_string_keys': 0.03, 'structured_keys': 0.03, 'ignored_leaf_kept_out_by_a_str_or_list_or_0_only_entry': 0.007}),
+                                 'u_is_a_branch_object_of_t': 0.014, 'numeric_string_keys': 0.03, 'structured_keys': 0.03, 'ignored_leaf_kept_out_by_a_str_or_list_or_0_only_entry': 0.007,
+                                 'own_defaults_passed_pos': 0.026, 'own_defaults_passed_kw': 0.03, 'ignore=None_passed_explicitly': 0.013, 'empty_string_leaf': 0.07,
+                                 'ignored_leaf_over_falsy_leaf_of_t': 0.023, 'ignore=[]': 0.011, "ignore=['', None]": 0.014}),
     Sub('session', lambda tier: _session_case(), run_session, quick=1500, thorough=10000,
         rule='t0 and two updates derived from it (or from one another) are built ONCE, with one ignore list object; 2-4 calls tree_update / Dict + dict whose operands are those same objects or the '
              'results of earlier calls, mostly with t0 on the left; every call judged by the single-call merge oracle on the original content; all operands, wrapped operands and earlier '
-             'results re-inspected after every call. non-trivial = the same left object merged with two different updates, or an earlier result used as an operand',
-        floor=0.3, class_floors={'same_left_object_other_update': 0.19, 'earlier_result_as_operand': 0.13, 'same_ignore_list_object_again': 0.17, 'same_operands_again': 0.13}),
+             'results re-inspected after every call; in a sixth of the sessions the caller edits one of the three trees in place between two calls (plain dict writes) and the following calls are judged by the '
+             'content it has then. non-trivial = the same left object merged with two different updates, or an earlier result used as an operand',
+        floor=0.3, class_floors={'same_left_object_other_update': 0.19, 'earlier_result_as_operand': 0.13, 'same_ignore_list_object_again': 0.17, 'same_operands_again': 0.13,
+                                 'operand_edited_in_place_between_calls': 0.06, 'edited_operand_had_been_the_tree': 0.026, 'edited_operand_had_been_the_update': 0.009}),
     Sub('table_tree', lambda tier: _table_case(), run_table, quick=2500, thorough=15000,
         rule='patterns with 1-4 wildcards interleaved with constants, rows with unique paths; oracle: independent tree construction, round trip both ways as multisets, dictable(tree, pattern) agrees; '
-             'a quarter of the cases with leaf=True, three in seven with an explicit base class, a third repeat both calls on the same table / tree objects. '
+             'a quarter of the cases with leaf=True, three in seven with an explicit base class, a third repeat both calls on the same table / tree objects (a third of those after the caller wrote one cell of the '
+             'table - row dict or dictable column list - and then one leaf of the tree in place); a fifth pass base, ignore, types and leaf positionally with their declared defaults; keys and leaves include the empty string. '
              'non-trivial = >= 2 rows and >= 2 wildcards',
         floor=0.15, class_floors={'const_leaf_after_wildcard': 0.05, 'const_leaf_after_key': 0.05, 'list_leaf': 0.05, 'leaf=True': 0.13, 'leaf=True,const_leaf_after_wildcard': 0.035,
-                                  'base=dict': 0.033, 'same_table_object_twice,list_of_dicts': 0.07, 'list_leaf_as_long_as_a_table_of_2+_rows': 0.023, 'numeric_string_keys': 0.017}),
+                                  'base=dict': 0.033, 'same_table_object_twice,list_of_dicts': 0.07, 'list_leaf_as_long_as_a_table_of_2+_rows': 0.023, 'numeric_string_keys': 0.017,
+                                  'cell_edited_in_place_between_calls,dictable_column': 0.009, 'cell_edited_in_place_between_calls,row_dict': 0.01,
+                                  'tree_leaf_edited_in_place_between_calls': 0.015, 'own_defaults_passed_positionally': 0.1, 'empty_string_key': 0.01}),
 ]
